@@ -237,6 +237,26 @@ func aberrantLoadMessageDescReentrant(t reflect.Type, name protoreflect.FullName
 		}
 	}
 
+	// Fields, oneofs and map entry messages point at each other (and at md).
+	// Reserve the space for all of them up front, so that appending to the
+	// lists below never moves elements that are already pointed to.
+	var numFields, numOneofs, numMaps int
+	for i := 0; i < t.Elem().NumField(); i++ {
+		f := t.Elem().Field(i)
+		if f.Tag.Get("protobuf") != "" {
+			numFields++
+		}
+		if f.Tag.Get("protobuf_key") != "" {
+			numMaps++
+		}
+		if f.Tag.Get("protobuf_oneof") != "" {
+			numOneofs++
+		}
+	}
+	md.L2.Fields.List = make([]filedesc.Field, 0, numFields+len(oneofWrappers))
+	md.L2.Oneofs.List = make([]filedesc.Oneof, 0, numOneofs)
+	md.L1.Messages.List = make([]filedesc.Message, 0, numMaps)
+
 	// Derive the message fields by inspecting the struct fields.
 	for i := 0; i < t.Elem().NumField(); i++ {
 		f := t.Elem().Field(i)
